@@ -12,6 +12,9 @@ pub enum Data {
     Ties { n: u32, levels: u32, lo: f64, span: f64, seed: u64, weighted: bool },
     /// uniform values over [lo, lo+span]
     Uniform { n: u32, lo: f64, span: f64, seed: u64, weighted: bool },
+    /// half of the values in [-1.7e308, -1e308], half in [1e308, 1.7e308], all with the small weight `w`
+    /// (so that the weighted sum stays representable): max - min and differences of neighbours exceed f64::MAX
+    Straddle { n: u32, seed: u64, w: f64 },
 }
 
 #[derive(Clone, Debug, Serialize, Deserialize)]
@@ -65,6 +68,15 @@ pub fn materialise(d: &Data) -> Vec<(f64, f64)> {
         Data::Uniform { n, lo, span, seed, weighted } => {
             let mut g = stat::SplitMix64(*seed);
             (0..*n).map(|_| (lo + span * g.f64(), weight(&mut g, *weighted))).collect()
+        }
+        Data::Straddle { n, seed, w } => {
+            let mut g = stat::SplitMix64(*seed);
+            (0..*n)
+                .map(|i| {
+                    let m = 1.0e308 + 0.7e308 * g.f64();
+                    (if i % 2 == 0 { -m } else { m }, *w)
+                })
+                .collect()
         }
     }
 }
@@ -131,7 +143,7 @@ impl Check for C15 {
         let total: f64 = pos.iter().map(|p| p.1).sum();
         let wmin = pos.iter().map(|p| p.1).fold(f64::INFINITY, f64::min);
         let ratio = (total / wmin).max(1.0);
-        let scale_v = mn.abs().max(mx.abs()).max(mx - mn).max(f64::MIN_POSITIVE);
+        let scale_v = mn.abs().max(mx.abs()).max(mx - mn).min(f64::MAX).max(f64::MIN_POSITIVE);
         let tau = 16.0 * f64::EPSILON * scale_v * ratio;
         let eps = 16.0 * f64::EPSILON * ratio;
         if d.min() != mn || d.max() != mx {
@@ -173,8 +185,19 @@ impl Check for C15 {
             prev_q = q;
             xq.push((q, x));
         }
-        // inverse consistency q -> x -> q
+        // inverse consistency q -> x -> q. It is exact (up to tol) only while differences of neighbouring values are
+        // representable; when max - min exceeds f64::MAX the interpolation parameter degenerates (inf / inf, clamped)
+        // and the two functions agree only "to within the digest's resolution", which is what the property asks for:
+        // the exact form of the check is skipped there, the calls are still made (no panic, no NaN).
+        let exact_inverse = (mx - mn).is_finite();
         for &(q, x) in &xq {
+            if !exact_inverse {
+                let up = guard!(format!("cdf({})", x), d.cdf(x));
+                if up.is_nan() || !(-eps..=1.0 + eps).contains(&up) {
+                    return fail("cdf-out-of-range", format!("cdf(quantile({})) = {} [{}]", q, up, cfg));
+                }
+                continue;
+            }
             let up = guard!(format!("cdf({})", x + tau), d.cdf(x + tau));
             if up < q - eps {
                 return fail(
@@ -193,10 +216,16 @@ impl Check for C15 {
         }
         // x grid
         let span = (mx - mn).max(1.0);
-        let mut xs: Vec<f64> = (0..=60).map(|i| mn - 1.0 + (span + 2.0) * (i as f64) / 60.0).collect();
-        xs.extend(c.xs_rel.iter().map(|r| mn + (mx - mn) * r));
+        let mut xs: Vec<f64> = if span.is_finite() {
+            (0..=60).map(|i| mn - 1.0 + (span + 2.0) * (i as f64) / 60.0).collect()
+        } else {
+            // max - min overflows: convex combinations instead of min + t * span
+            (0..=60).map(|i| i as f64 / 60.0).map(|t| mn * (1.0 - t) + mx * t).collect()
+        };
+        xs.extend(c.xs_rel.iter().map(|r| if span.is_finite() { mn + (mx - mn) * r } else { mn * (1.0 - r) + mx * r }));
         xs.extend(pos.iter().take(60).map(|p| p.0));
         xs.extend([mn, mx, mn - tau, mx + tau, f64::NEG_INFINITY, f64::INFINITY, f64::MIN, f64::MAX]);
+        xs.retain(|x| !x.is_nan());
         xs.sort_by(|a, b| a.partial_cmp(b).unwrap());
         xs.dedup();
         let mut prevc = 0.0f64;
@@ -222,7 +251,7 @@ impl Check for C15 {
             prevc = prevc.max(p);
             prevx = x;
             // x -> q -> x : quantile(cdf(x)) must not lie above x beyond the flat part
-            if x >= mn && x <= mx {
+            if x >= mn && x <= mx && exact_inverse {
                 let back = guard!(format!("quantile({})", p), d.quantile(p.min(1.0).max(0.0)));
                 let again = guard!(format!("cdf({})", back + tau), d.cdf(back + tau));
                 if again < p.min(1.0) - eps {
@@ -241,7 +270,8 @@ impl Check for C15 {
             .class_if(wmin != 1.0 || total != nf, "weighted")
             .class_if(c.scale_exp != 0, "rescaled_values")
             .class_if(c.weight_exp != 0, "rescaled_weights")
-            .class_if(matches!(c.data, Data::Ties { .. }), "heavy_ties");
+            .class_if(matches!(c.data, Data::Ties { .. }), "heavy_ties")
+            .class_if(matches!(c.data, Data::Straddle { .. }), "range_exceeds_f64_max");
         info.inner_evals = (qs.len() + xs.len()) as u64;
         Verdict::Pass(info)
     }
@@ -274,6 +304,7 @@ fn strategy(tier: Tier) -> BoxedStrategy<Case> {
         4 => (nsmall.clone(), 1u32..12, lo.clone(), span.clone(), any::<u64>(), any::<bool>()).prop_map(|(n, levels, lo, span, seed, weighted)| Data::Ties { n, levels, lo, span, seed, weighted }),
         3 => (nsmall, lo, span, any::<u64>(), any::<bool>()).prop_map(|(n, lo, span, seed, weighted)| Data::Uniform { n, lo, span, seed, weighted }),
     ];
+    let straddle = (2u32..60, any::<u64>(), prop_oneof![Just(1e-4f64), Just(1e-6), Just(1e-3)]).prop_map(|(n, seed, w)| Data::Straddle { n, seed, w });
     let scale_exp = prop_oneof![16 => Just(0i8), 4 => -30i8..=30, 4 => prop_oneof![Just(-19i8), Just(-25), Just(20)], 1 => prop_oneof![Just(100i8), Just(-100), Just(120), Just(-120), Just(127), Just(-127), 101i8..=127, -127i8..=-101]];
     // rarely a delta far larger than n (nothing is ever fused); n is then capped, since every insert
     // with a small backlog re-sorts all centroids
@@ -281,7 +312,13 @@ fn strategy(tier: Tier) -> BoxedStrategy<Case> {
     // weight units: mostly 1; sometimes 10^+-30; rarely such that the total weight comes close to f64::MAX or stays tiny
     let weight_exp = prop_oneof![20 => Just(0i16), 3 => -30i16..=30, 1 => prop_oneof![Just(290i16), Just(295), Just(300), Just(302), Just(304), Just(-250), Just(-280)]];
     (scale(), delta, backlog_strategy(), data, prop::collection::vec(0.0f64..=1.0, 0..6), prop::collection::vec(-0.1f64..1.1, 0..6), scale_exp, weight_exp)
-        .prop_map(|(scale, delta, backlog, data, qs, xs_rel, scale_exp, weight_exp)| {
+        .prop_flat_map(move |t| (Just(t), prop_oneof![60 => Just(None), 1 => straddle.clone().prop_map(Some)]))
+        .prop_map(|((scale, delta, backlog, data, qs, xs_rel, scale_exp, weight_exp), st)| {
+            // values next to +-f64::MAX: no rescaling on top
+            let (data, scale_exp, weight_exp) = match st {
+                Some(d) => (d, 0, 0),
+                None => (data, scale_exp, weight_exp),
+            };
             let data = if delta > 1000.0 {
                 match data {
                     Data::Ties { n, levels, lo, span, seed, weighted } => Data::Ties { n: n.min(1500), levels, lo, span, seed, weighted },
@@ -301,7 +338,7 @@ pub fn checks() -> Vec<Box<dyn DynCheck>> {
 }
 
 pub fn run(ctx: &Ctx) {
-    ctx.set_rule("generated: scale in K0..K3, delta in (1, 1000] (rarely 1e4, 1e5), backlog 0..1000 (rarely 2^62, usize::MAX - 1, usize::MAX: nothing merges before a read), n in 1..=2000 (50000 thorough), data = explicit (value, weight) lists / heavy ties over few levels / uniform, ranges 1e-3..1e12 (a third of the cases multiplied by 10^e, e in -30..=30; 4 % by 10^+-100 .. 10^+-289), unit weights or weights over 1e-6..1e6 (in a sixth of the cases times 10^e, e in -30..=30, rarely e in {-280, -250, 290, 295, 300, 302, 304}; cases whose sum of |x*w| or total weight is not representable are skipped); q on a 101-point grid + generated + neighbours of 0 and 1; x on a grid over [min-1, max+1] + data points + {min, max, +-inf}. Oracle: quantile non-decreasing, within [min,max], = min at 0, = max at 1; cdf non-decreasing, in [0,1], 0 below min, 1 from max upward; inverse consistency both ways (cdf(x+tol) >= q for x = quantile(q); quantile(cdf(x-tol)) <= x+tol); repeated reads bit-identical; empty digest NaN / 0; no panic (debug assertions on). tol = 16 ulps of the data range x total/smallest weight. Non-trivial: n_centroids >= 2, some centroid has weight > 1 (fusion happened) and the last centroid's mean is below max. Distinct = hash of the case.");
+    ctx.set_rule("generated: scale in K0..K3, delta in (1, 1000] (rarely 1e4, 1e5), backlog 0..1000 (rarely 2^62, usize::MAX - 1, usize::MAX: nothing merges before a read), n in 1..=2000 (50000 thorough), data = explicit (value, weight) lists / heavy ties over few levels / uniform / rarely 2..60 values split between [-1.7e308, -1e308] and [1e308, 1.7e308] (max - min exceeds f64::MAX), ranges 1e-3..1e12 (a third of the cases multiplied by 10^e, e in -30..=30; 4 % by 10^+-100 .. 10^+-289), unit weights or weights over 1e-6..1e6 (in a sixth of the cases times 10^e, e in -30..=30, rarely e in {-280, -250, 290, 295, 300, 302, 304}; cases whose sum of |x*w| or total weight is not representable are skipped); q on a 101-point grid + generated + neighbours of 0 and 1; x on a grid over [min-1, max+1] + data points + {min, max, +-inf}. Oracle: quantile non-decreasing, within [min,max], = min at 0, = max at 1; cdf non-decreasing, in [0,1], 0 below min, 1 from max upward; inverse consistency both ways (cdf(x+tol) >= q for x = quantile(q); quantile(cdf(x-tol)) <= x+tol); repeated reads bit-identical; empty digest NaN / 0; no panic (debug assertions on). tol = 16 ulps of the data range x total/smallest weight. Non-trivial: n_centroids >= 2, some centroid has weight > 1 (fusion happened) and the last centroid's mean is below max. Distinct = hash of the case.");
     ctx.assume("values with |x*w| finite and normal, as the constructor's documented domain (finite x, finite w >= 0)");
     ctx.run_regressions(&[&C15]);
     let t = ctx.tier;
